@@ -80,7 +80,13 @@ S_I18NATTR = ('<div i18n:domain="d"><img src="a.png" i18n:attributes="title; '
               'i18n:attributes="title t-id; lang l-id; rel">${name}${y()}</a></div>')
 S_NS = ('<br xmlns:tal="urn:example:my-own-vocabulary" tal:role="x" />'
         '<p xmlns:q="urn:q" q:a="1">${name}${y()}</p>')
-STRINGS = {"i18nattr": S_I18NATTR, "err": S_ERR, "ns": S_NS, "gmacro": S_GMACRO, "imp1": S_IMP1, "imp2": S_IMP2, "global": S_GLOBAL, "macro": S_MACRO, "code": S_CODE,
+# a template that is given an extra builtin, and one that uses the same name
+# as an ordinary variable (what one template was configured with must not
+# change how another one is compiled)
+S_XB = '<p>${helper}-${name}${y()}</p>'
+S_USESVAR = "<p>${helper | 'none'}-${name}${y()}</p><b tal:condition=\"exists: helper\">has</b>"
+STRING_OPTIONS = {"xb": {"extra_builtins": {"helper": "EB"}}}
+STRINGS = {"xb": S_XB, "usesvar": S_USESVAR, "i18nattr": S_I18NATTR, "err": S_ERR, "ns": S_NS, "gmacro": S_GMACRO, "imp1": S_IMP1, "imp2": S_IMP2, "global": S_GLOBAL, "macro": S_MACRO, "code": S_CODE,
            "i18n": S_I18N, "nested": S_NESTED}
 
 F_LIB = (
@@ -502,7 +508,8 @@ class C14(CheckBase):
         def make(i):
             kind, name = temps[i]
             if kind == "string":
-                return zt.PageTemplate(STRINGS[name])
+                return zt.PageTemplate(STRINGS[name],
+                                       **STRING_OPTIONS.get(name, {}))
             return zt.PageTemplateFile(os.path.join(d, name))
         inst = {}
         out = []
@@ -642,6 +649,7 @@ class C14(CheckBase):
                 s.yield_point("probe:y", interesting=True, access=True)
             return ""
         return {"name": "n%d" % k, "items": [k, k + 1, k + 2],
+                "helper": "H%d" % k,
                 "y": y, "translate": tr_stub,
                 "markup": Markup("<em>m%d</em>" % k),
                 "opts": {"a": [k], "b": {"c": k}}}
@@ -669,7 +677,8 @@ class C14(CheckBase):
         for s in shared:
             k = s["kind"]
             if k == "string":
-                objs.append(zt.PageTemplate(STRINGS[s["name"]]))
+                objs.append(zt.PageTemplate(
+                    STRINGS[s["name"]], **STRING_OPTIONS.get(s["name"], {})))
             elif k == "file":
                 objs.append(zt.PageTemplateFile(
                     os.path.join(d, s["name"]), search_path=owned(),
@@ -680,7 +689,7 @@ class C14(CheckBase):
                                 else {})))
             elif k == "cached":
                 objs.append(zt.PageTemplate(
-                    STRINGS[s["name"]],
+                    STRINGS[s["name"]], **STRING_OPTIONS.get(s["name"], {}),
                     loader=self.ModuleLoader(os.path.join(d, "cache"))))
             elif k == "cachedfile":
                 objs.append(zt.PageTemplateFile(
